@@ -150,4 +150,12 @@ REG = {
   note="Trusted: TLC, the tree dump of the driver (everything reachable through exported fields and accessors).",
   technique="TLA+ history model checked with TLC; exhaustive history replay + TLC trace validation with a first-observation history variable",
   design="DESIGN.md section 4/C08"),
+ "C09": dict(
+  text="MC_Conc enumerates every interleaving of G goroutines evaluating shared trees at gate granularity (one gate per evaluated "
+       "node) and checks SharedReadOnly, SeqEquivalent and NoInterference; every complete schedule is executed on real goroutines "
+       "whose resolve hook blocks until the scheduler permits them, in a -race build, and each goroutine's result is compared with "
+       "the model's; free-running goroutines under the race detector are validated by Trace_Conc. A race-detector report is a violation.",
+  note="Trusted: TLC, the Go race detector (it decides 'without data races' on the explored schedules), the gate handshake.",
+  technique="TLA+ interleaving model checked with TLC; schedule replay with a blocking hook under the Go race detector + TLC trace validation of free-running runs",
+  design="DESIGN.md section 4/C09"),
 }
